@@ -22,7 +22,8 @@ def _run(repo, fn_q, stages, pre=None, prem=None):
     """evaluate Builder.<fn> on a builder with the given stages; pre / prem: {stage name: answer} for preprocess / premerge
     (default: the stage itself).  Returns (result, final stage names, call log)"""
     log = []
-    b = Obj('builder', 'Builder', stages=list(stages), _current_file=None, _current_stage=None)
+    from .common import builder_obj
+    b = builder_obj(repo, stages=list(stages), _current_file=None, _current_stage=None)
 
     def stub(name, recv, args, kwargs):
         if name == 'preprocess':
